@@ -529,6 +529,67 @@ def check_history(ctx, run, stream, diag=False):
     return bad
 
 
+def blind_move(ctx, run, stream, tail=None):
+    """Edits WITHOUT any report in between.  The run itself observes the system after every call (params / tree / save),
+    which refreshes every cache an analysis keeps; a cache that is only invalidated by what the reports look at would
+    never be caught that way.  Here, with all reports just taken (caches hot), a leaf is deleted and re-added under the
+    same name below ANOTHER parent (rustworkx re-uses the freed node index) with no report between the two calls; the
+    reports afterwards must equal those of the final structure built from scratch."""
+    import copy
+    fs = final_structure(run)
+    if fs is None:
+        return False
+    kids = {n: [] for n in fs["comps"]}
+    for n, c in fs["comps"].items():
+        for q in c["parents"]:
+            kids.setdefault(q, []).append(n)
+    if tail is None:
+        leaves = sorted(n for n, c in fs["comps"].items() if not kids[n] and len(c["parents"]) == 1
+                        and c["desc"]["kind"] not in ("source", "pmux"))
+        ctx.rng.shuffle(leaves)
+        tail = None
+        for x in leaves:
+            others = sorted(q for q, c in fs["comps"].items() if q != x and q != fs["comps"][x]["parents"][0]
+                            and c["desc"]["kind"] not in H.LOADS)
+            if others:
+                tail = [x, ctx.rng.choice(others)]
+                break
+        if tail is None:
+            return False
+    x, p2 = tail
+    if x not in fs["comps"] or p2 not in fs["comps"]:
+        return False
+    reports(run.sys)                                    # every cache is hot
+    desc = fs["comps"][x]["desc"]
+    e1 = H.call(run.sys, {"op": "del_comp", "name": x, "del_childs": True})
+    e2 = H.call(run.sys, {"op": "add_comp", "parent": p2, "comp": desc, "group": "", "rail": ""})
+    ctx.stats["%s:blind_move" % stream] += 1
+    if e1 is not None or e2 is not None:
+        ctx.stats["%s:blind_move:rejected" % stream] += 1
+        return False
+    rep = reports(run.sys)
+    fs2 = copy.deepcopy(fs)
+    fs2["comps"][x]["parents"] = [p2]
+    fs2["groups"][x] = ""
+    fs2["rails"][x] = ""
+    fs2["phase_conf"].pop(x, None)
+    order = build_order(fs2)
+    fresh, err = build_fresh(fs2, order) if order else (None, "no order")
+    if fresh is None:
+        return False
+    frep = reports(fresh)
+    hist = run.history()
+    for name in rep:
+        d = diff_report(name, rep[name], frep[name])
+        if d is not None:
+            ctx.oracle({"history": hist, "calls": H.short(hist), "blind_tail": [x, p2]}, "same_as_fresh:" + name, "del_comp+add_comp", {},
+                       dict(d, stream=stream + ":blind_move", a_is="edited system: all reports taken, then del_comp(%r) and add_comp(%r, %r) "
+                            "with no report in between" % (x, p2, x), b_is="final structure built from scratch"))
+            ctx.stats["oracle:same_as_fresh"] += 1
+            return True
+    return False
+
+
 def run_corpus(ctx):
     import glob
     from ..check import VERIF
@@ -540,10 +601,12 @@ def run_corpus(ctx):
 
 def run(ctx):
     run_corpus(ctx)
-    n = ctx.n(150, 2600)
+    n = ctx.n(120, 2200)
     for k in range(n):
         r = gen_history(ctx)
-        check_history(ctx, r, "main", diag=(k % 12 == 0))
+        bad = check_history(ctx, r, "main", diag=(k % 12 == 0))
+        if not bad and r.init_outcome == "ok" and r.cur() is not None and not any(s_["wf"] for s_ in r.steps):
+            blind_move(ctx, r, "main")
         st = r.cur()
         if st is not None:
             ctx.stats["main:final-size:%s" % ("<=3" if len(st["comps"]) <= 3 else "<=8" if len(st["comps"]) <= 8 else ">8")] += 1
@@ -560,4 +623,7 @@ def search(ctx):
 
 def replay(ctx, data):
     h = data["case"]["history"] if "history" in data.get("case", {}) else data["case"]
-    check_history(ctx, replay16(h), "replay", diag=True)
+    r = replay16(h)
+    bad = check_history(ctx, r, "replay", diag=True)
+    if not bad and data.get("case", {}).get("blind_tail"):
+        blind_move(ctx, r, "replay", tail=data["case"]["blind_tail"])
